@@ -158,6 +158,61 @@ func checkFraming(p *Prog, r *Report) {
 				"Peek(4) (non-consuming), big-endian uint16 at offset 2, nothing else touches the reader",
 				fmt.Sprintf("the length function is not 'Peek(4), big-endian uint16 at offset 2, no consumption' (peek4=%v offset2=%v bigEndianU16=%v consuming call=%q): messages are framed at the wrong boundary", peekOK, offOK, be, consumes), true)
 		}
+		// aliasing: a message buffer that outlives the iteration may only be used if the element decoder copies every
+		// byte-slice value out of it
+		fresh := false
+		var under ssa.Value = buf
+		if sl, ok := buf.(*ssa.Slice); ok {
+			under = sl.X
+		}
+		if ms, ok := under.(*ssa.MakeSlice); ok && ms.Parent() == f && inLoop(ms.Block()) {
+			fresh = true
+		}
+		aliases := decoderAliasingCases(p)
+		r.Check(fresh || len(aliases) == 0, "R-FRAME.no-alias", k+": delivered values do not alias a reused read buffer", p.instrPos(cs),
+			fmt.Sprintf("message buffer allocated per message: %v; decoder cases that keep the input slice: %v", fresh, aliases),
+			fmt.Sprintf("the read buffer is reused across messages and the element decoder keeps sub-slices of it for %v: a value already delivered to the consumer changes when the next message is read", aliases), true)
+		// constant-bound slicing / indexing of the message buffer (whose length is the wire value L) needs L >= bound
+		eachInstr(f, func(in ssa.Instruction) {
+			var bound int64 = -1
+			switch x := in.(type) {
+			case *ssa.Slice:
+				if x.X == buf && x.High != nil {
+					if c, ok := constInt(x.High); ok {
+						bound = c
+					}
+				}
+				if x.X == buf && x.Low != nil && bound < 0 {
+					if c, ok := constInt(x.Low); ok {
+						bound = c
+					}
+				}
+			case *ssa.IndexAddr:
+				if x.X == buf {
+					if c, ok := constInt(x.Index); ok {
+						bound = c + 1
+					}
+				}
+			}
+			if bound <= 0 {
+				return
+			}
+			proved := false
+			for _, fct := range blockFacts(in.Block()) {
+				xv, op, yv := fct.X, fct.Op, fct.Y
+				if yv == L {
+					xv, yv, op = yv, xv, flipOp(op)
+				}
+				if xv != L {
+					continue
+				}
+				if c, ok := constInt(yv); ok && ((op == token.GEQ && c >= bound) || (op == token.GTR && c >= bound-1)) {
+					proved = true
+				}
+			}
+			r.Check(proved, "R-FRAME.buffer-bounds", fmt.Sprintf("%s: message buffer sliced/indexed at constant %d", k, bound), p.instrPos(in), "dominated by length >= bound",
+				fmt.Sprintf("the message buffer has the length announced on the wire (0..65535); slicing it at %d without a length test panics in the reader goroutine for shorter announced lengths and takes the whole collector down", bound), true)
+		})
 		// nothing else consumes the reader in this function
 		other := ""
 		eachInstr(f, func(in ssa.Instruction) {
@@ -301,3 +356,37 @@ func errEdgeLeavesLoop(ev ssa.Value, loopHead *ssa.BasicBlock) bool {
 }
 
 var _ = token.ADD
+
+// decoderAliasingCases lists the constructors in the element decoder that are handed the input slice itself (not a copy).
+func decoderAliasingCases(p *Prog) []string {
+	dec := p.Fn("pkg/entities.DecodeAndCreateInfoElementWithValue")
+	if dec == nil || len(dec.Params) < 2 {
+		return []string{"?"}
+	}
+	val := ssa.Value(dec.Params[1])
+	var out []string
+	eachInstr(dec, func(in ssa.Instruction) {
+		c, ok := in.(*ssa.Call)
+		if !ok {
+			return
+		}
+		n := calleeName(&c.Call)
+		if !strings.HasPrefix(n, "pkg/entities.New") || len(c.Call.Args) < 2 {
+			return
+		}
+		cands := []ssa.Value{c.Call.Args[1]}
+		if ph, ok := c.Call.Args[1].(*ssa.Phi); ok {
+			cands = ph.Edges
+		}
+		for _, v := range cands {
+			v = stripChange(v)
+			if v == val {
+				out = append(out, strings.TrimPrefix(n, "pkg/entities."))
+			}
+			if sl, ok := v.(*ssa.Slice); ok && sl.X == val {
+				out = append(out, strings.TrimPrefix(n, "pkg/entities."))
+			}
+		}
+	})
+	return out
+}
